@@ -17,7 +17,8 @@ func init() {
 			"(L) liveness gate: in LookupBackend and lookupSharedBackend every return of a backend ID with nil error is dominated by the true branch of hasBackend(ctx, <that same ID>, backendTimeout); hasBackend is lastSeen != nil && Since(lastSeen) < timeout (truth table on boundary values); the window is 5 minutes; a datastore error counts as never seen; " +
 			"(F) the shared lookup runs only on the error branch of the per-user selection, with the same path; (N) a failed lookup is answered 404 before any store write; " +
 			"(S) shape of the selection function: it calls only strings.HasPrefix, len and fmt.Errorf, reads no package variable and ranges only over slices (determinism); a candidate replaces the current best only if HasPrefix(path, p) holds for the range element p of the current backend's prefixes, and only when there is no best yet or len(p) > len(best prefix) (truth table on the two lengths); the recorded ID and prefix belong to the same backend / the same p; the error return is exactly the no-match case; " +
-			"(C) routing goes straight to the persistent store: the caching store delegates LookupBackend purely and keeps no state.",
+			"(C) routing goes straight to the persistent store: the caching store delegates LookupBackend purely and keeps no state. " +
+			"Both loops of the selection (backends × prefixes) are left only when their range is exhausted.",
 		Assumptions: []string{"datastore queries return the registered backends", "time.Since is monotone"},
 		Run:         runC18,
 	})
